@@ -245,9 +245,10 @@ def openReader (K : Inflate) (file : Bytes) : Outcome Reader := do
   let blocks ← decBlockIndex raw
   pure ⟨file, h, blocks, K⟩
 
-/-- `add_offset`: unchecked `u64` addition per entry -/
+/-- `add_offset`: saturating `u64` addition per entry (since /repo c1d32dc4; before, an unchecked
+    addition that panicked in the dev profile) -/
 def addOffset (off : Nat) (l : List Range) : Outcome (List Range) :=
-  if l.all (fun r => r.off + off < U64) then .ok (l.map fun r => ⟨r.off + off, r.len⟩) else .panic
+  .ok (l.map fun r => ⟨min (r.off + off) (U64 - 1), r.len⟩)
 
 /-- `get_block_tile_index` (reader.rs:136-154) -/
 def blockTileIndex (r : Reader) (b : BlockDef) : Outcome (List Range) := do
@@ -255,7 +256,7 @@ def blockTileIndex (r : Reader) (b : BlockDef) : Outcome (List Range) := do
   let raw ← r.K.run .brotli blob
   let idx ← decTileIndex raw
   let idx ← addOffset b.tiles.off idx
-  must (idx.length == b.count)            -- `assert_eq!(tile_index.len(), block.count_tiles())`
+  ensure (idx.length == b.count)          -- `ensure!(tile_index.len() == block.count_tiles())` (an `assert_eq!` before c1d32dc4)
   pure idx
 
 /-- position of a tile inside the block's global box (`get_tile_index2`, row-major) -/
@@ -274,7 +275,7 @@ def getTile (r : Reader) (x y z : Nat) : Outcome (Option Bytes) :=
         match blockTileIndex r b with
         | .ok idx =>
           match idx[tilePos b x y]? with
-          | none => .panic                             -- unreachable after the `assert_eq!`
+          | none => .panic                             -- unreachable after the length check
           | some rg =>
             if rg.len = 0 then .ok none
             else match readRange r.file rg with
